@@ -157,7 +157,10 @@ def run(chk: Check) -> None:
            'the key it was registered with', node=stores[0] if stores else ad.node, kind='result-into-context')
     # "... it continues once it is playing": the pause gate the woken-up step sits behind is released by play(), and a pause
     # request never replaces a pause future somebody awaits (obligations shared with C05)
+    from .common import barrier_opens_when_empty
+    barrier_opens_when_empty(chk, 'FWD-awaitable-result')
     from . import c05
+    c05.no_step_lost(chk)
     c05.pause_gate(chk)
     c05.pause_ladder(chk)
     c05.status_pairing(chk)
